@@ -346,7 +346,11 @@ func (sess *hopSession) newAuthGrantTube() (*tubes.Reliable, error) {
 func (sess *hopSession) startPF(ch *tubes.Reliable) {
 	// TODO find a way of selecting a remote forwarding
 	// or a local forwarding
-	portforwarding.StartPFServer(ch, &sess.forward, sess.tubeMuxer)
+	var authorize func(fwdType byte) error
+	if sess.usingAuthGrant {
+		authorize = sess.checkPF
+	}
+	portforwarding.StartPFServerAuthorized(ch, &sess.forward, sess.tubeMuxer, authorize)
 }
 
 func (sess *hopSession) handlePF(ch tubes.Tube) {
